@@ -165,7 +165,7 @@ def _gen_stack(rng, k, absorbing=False):
     wvl = round(float(rng.uniform(0.4, 2.0)), 3)
     smax = min(0.97 * min(ns) / amb, math.sin(math.radians(89)))
     lim = math.degrees(math.asin(smax))
-    aoi = float(rng.choice([0.0, round(rng.uniform(0, lim), 2), round(rng.uniform(0, lim), 2)]))
+    aoi = float(rng.choice([0.0, min(0.03, lim), round(rng.uniform(0, lim), 2), round(rng.uniform(0, lim), 2)]))
     stack = []
     for j, n in enumerate(ns):
         ct = math.sqrt(1 - (amb * math.sin(math.radians(aoi)) / n) ** 2)
